@@ -10,7 +10,7 @@
    engine) and ties the implementation model to the engine by comparing error sets. *)
 From Coq Require Import ZArith List String Bool.
 From TV Require Import Py.Prelude Model.Schema Model.ImplInput Model.ImplExec Model.Envelope
-     Model.ImplValidate Model.SpecValidate Model.RunValidate Proofs.ValidateProofs.
+     Model.ImplValidate Model.SpecValidate Model.RunValidate Proofs.ValidateProofs Proofs.ValidateRules.
 Import ListNotations.
 Open Scope string_scope.
 Open Scope list_scope.
@@ -41,6 +41,25 @@ Theorem C06_distinct_input_fields_accepted path (fields : list (string * lit)) :
   nodupb (map fst fields) = true ->
   uniq_errors "input-object-field-uniqueness" fst (fun kv => lit_loc (snd kv)) path fields = [].
 Proof. apply input_field_uniqueness_rule. Qed.
+
+(* three more rules proved exact for every schema and document (Proofs/ValidateRules.v); here the
+   direction C06 needs: what the specification allows is not reported.  The last two read the list
+   of spreads the walk accumulates in its shared context: that list is exactly the document's. *)
+Theorem C06_lone_anonymous_accepted doc :
+  r_lone_anonymous doc = true -> lone_anonymous_errors (operations doc) = [].
+Proof. apply lone_anonymous_exact_doc. Qed.
+Theorem C06_used_fragments_accepted V doc :
+  r_fragments_used V doc = true -> must_be_used_errors (fragments doc) (frag_spreads (walked V doc)) = [].
+Proof. apply must_be_used_exact. Qed.
+Theorem C06_defined_spread_targets_accepted V doc :
+  r_spread_targets V doc = true -> spread_target_errors (fragments doc) (frag_spreads (walked V doc)) = [].
+Proof. apply spread_targets_exact. Qed.
+Theorem C06_walk_records_exactly_the_documents_spreads V doc :
+  map fst (frag_spreads (walked V doc)) = spread_names V doc.
+Proof. symmetry. apply spread_names_are_the_walks. Qed.
+Theorem C06_rules_read_the_documents_spreads V doc :
+  frag_spreads (walked V doc) = doc_spreads doc.
+Proof. apply walked_spreads. Qed.
 
 (* a document the walk accepts is executed: the response is that of the executor on that document *)
 Theorem C06_accepted_documents_run {A} (coercer : gerr -> A) V U cfg doc opname raw root :
@@ -73,3 +92,8 @@ Print Assumptions C06_distinct_arguments_accepted.
 Print Assumptions C06_distinct_directives_accepted.
 Print Assumptions C06_distinct_input_fields_accepted.
 Print Assumptions C06_accepted_documents_run.
+Print Assumptions C06_lone_anonymous_accepted.
+Print Assumptions C06_used_fragments_accepted.
+Print Assumptions C06_defined_spread_targets_accepted.
+Print Assumptions C06_walk_records_exactly_the_documents_spreads.
+Print Assumptions C06_rules_read_the_documents_spreads.
